@@ -169,6 +169,44 @@ class Verifier:
         def type_name(v):
             return ops.type_name(v)
 
+        self.concrete_schedule = None
+
+        def nd_int(lo, hi):
+            sch = self.concrete_schedule
+            if sch is not None:
+                # concrete replay of a schedule (CPython cross-check): same semantics as spec/nondet.py
+                if sch["pos"] < len(sch["vals"]):
+                    v = sch["vals"][sch["pos"]]
+                    sch["pos"] += 1
+                elif sch["vals"]:
+                    v = sch["vals"][-1]
+                else:
+                    v = lo
+                if v < lo:
+                    v = lo
+                if hi is not None and v > hi:
+                    v = hi
+                return v
+            c = ctx()
+            t = c.fresh_int("nd")
+            if lo is not None:
+                c.assume(t >= T(lo))
+            if hi is not None:
+                c.assume(t <= T(hi))
+            c.ghost.setdefault("nondet_log", []).append(t)
+            return SInt(t)
+
+        def nd_bool():
+            return ops.py_eq(nd_int(0, 1), 1)
+        nd = self.interp.modules.get("spec.nondet")
+        if nd is not None:
+            nd.ns["nondet_int"] = N("nondet_int", nd_int)
+            nd.ns["nondet_bool"] = N("nondet_bool", nd_bool)
+            for m in self.interp.modules.values():
+                if isinstance(m, IModule) and m.name.startswith("spec."):
+                    for k in ("nondet_int", "nondet_bool"):
+                        if k in m.ns and m is not nd:
+                            m.ns[k] = nd.ns[k]
         self.base_ns.update({
             "implies": N("implies", implies), "stream_of": N("stream_of", stream_of),
             "nondet_int": N("nondet_int", nondet_int), "nondet_bool": N("nondet_bool", nondet_bool),
@@ -299,12 +337,26 @@ class Verifier:
         def ev(expr):
             return interp.eval(ast.parse(expr, mode="eval").body, inv_env())
 
+        def solved_forms(tag):
+            # "=expr" havoc entries are invariants in solved form: name == expr must hold here
+            for name, p in spec.get("havoc", {}).items():
+                if isinstance(p, str):
+                    eq = interp.eq(ev(name), ev(p[1:]))
+                    self.check(f"loop{ordinal}/{tag}[{name} == {p[1:]}]", eq if isinstance(eq, bool) else ops.truth_term(eq))
+
         # (1) invariant holds on entry
         for i, inv in enumerate(spec.get("invariant", ())):
             self.check(f"loop{ordinal}/inv-entry#{i}", ops.truth_term(ev(inv)))
-        # (2) arbitrary iteration: havoc the loop-modified variables, assume the invariant
+        solved_forms("inv-entry")
+        # (2) arbitrary iteration: havoc the loop-modified state (locals and object fields), assume the invariant.
+        #     a havoc value written "=expr" states the invariant in solved form (the variable IS that expression)
         for name, p in spec.get("havoc", {}).items():
-            env.vars[name] = _untag(p.make(f"{name}_L{ordinal}"))
+            val = ev(p[1:]) if isinstance(p, str) else _untag(p.make(f"{name.replace('.', '_')}_L{ordinal}"))
+            if "." in name:
+                objexpr, attr = name.rsplit(".", 1)
+                interp.setattr_(ev(objexpr), attr, val)
+            else:
+                env.vars[name] = val
         for inv in spec.get("invariant", ()):
             cx.assume(ops.truth_term(ev(inv)))
         if interp.truth(interp.eval(node.test, env)):
@@ -317,6 +369,7 @@ class Verifier:
                 pass
             for i, inv in enumerate(spec.get("invariant", ())):
                 self.check(f"loop{ordinal}/inv-preserved#{i}", ops.truth_term(ev(inv)))
+            solved_forms("inv-preserved")
             if before is not None:
                 after = ev(spec["decreases"])
                 self.check(f"loop{ordinal}/variant-decreases", simp(z3.And(T(after) < T(before), T(before) >= 0))
@@ -428,6 +481,9 @@ class Verifier:
 
     def _concretize_inputs(self, model):
         out = {}
+        log = ctx().ghost.get("nondet_log")
+        if log:
+            out["__schedule__"] = repr([model.eval(t, model_completion=True).as_long() for t in log])
         for name, (p, raw) in self._inputs.items():
             try:
                 out[name] = p.concretize(raw, model)
@@ -563,6 +619,11 @@ class Verifier:
             for i, e in enumerate(contract.ensures):
                 t = ops.truth_term(self.eval_expr(e, env_extra))
                 self.check(f"ensures#{i}", t)
+        else:
+            env_extra = dict(vars_, exc=real[1])
+            for i, e in enumerate(getattr(contract, "ensures_exc", ())):
+                t = ops.truth_term(self.eval_expr(e, env_extra))
+                self.check(f"ensures-exc#{i}[{real[1].cls.name}]", t)
 
     def _exc_name(self, e):
         return e.cls.qualname
